@@ -18,9 +18,62 @@ const c12Singles = 16 * 3 * 33
 func c12Counts(tier string) (singles, pairs, random int) {
 	s := c12Singles / c12SinglesPerCase
 	if tier == "thorough" {
-		return s, 20000, 400000
+		return s, 20000, 400000 + 3*len(c12Sizes(tier))
 	}
-	return s, 2000, 40000
+	return s, 2000, 40000 + 3*len(c12Sizes(tier))
+}
+
+func c12Sizes(tier string) []int {
+	if tier == "thorough" {
+		return core.Thresholds(4200)
+	}
+	return core.Thresholds(1100)
+}
+
+// c12SizedAlert builds an alert whose number of selectors of one kind is n (size-threshold sweep):
+// kind 0: n explicit route selectors; kind 1: n non-identifying route-only descriptors over distinct routes;
+// kind 2: n identifiable trips. A handful of descriptor selectors naming the first, a middle and the last
+// of those routes (and two routes named nowhere else) are inserted at random positions.
+func c12SizedAlert(r *core.Rand, kind, n, uniq int) []*gtfsrt.EntitySelector {
+	var out []*gtfsrt.EntitySelector
+	route := func(i int) string { return fmt.Sprintf("R%03d", i) }
+	for i := 0; i < n; i++ {
+		switch kind {
+		case 0:
+			s := &gtfsrt.EntitySelector{RouteId: rgen.S(route(i))}
+			if i%3 == 0 {
+				s.DirectionId = rgen.U32(uint32(i % 2))
+			}
+			out = append(out, s)
+		case 1:
+			d := &gtfsrt.TripDescriptor{RouteId: rgen.S(route(i))}
+			if i%2 == 0 {
+				d.DirectionId = rgen.U32(uint32((i / 2) % 2))
+			}
+			out = append(out, &gtfsrt.EntitySelector{Trip: d})
+		default:
+			out = append(out, &gtfsrt.EntitySelector{Trip: &gtfsrt.TripDescriptor{TripId: rgen.S(fmt.Sprintf("sized-%d-%d", uniq, i)), RouteId: rgen.S(route(i % 7))}})
+		}
+	}
+	extra := []int{0, n / 2, n - 1, n + 5, n + 6}
+	for _, i := range extra {
+		if i < 0 {
+			continue
+		}
+		d := &gtfsrt.TripDescriptor{RouteId: rgen.S(route(i))}
+		if r.Bool() {
+			d.DirectionId = rgen.U32(uint32(r.Intn(2)))
+		}
+		sel := &gtfsrt.EntitySelector{Trip: d}
+		if r.Chance(1, 3) {
+			sel.StopId = rgen.S("S1")
+		}
+		pos := r.Intn(len(out) + 1)
+		out = append(out, nil)
+		copy(out[pos+1:], out[pos:])
+		out[pos] = sel
+	}
+	return out
 }
 
 func init() {
@@ -375,6 +428,14 @@ func runC12(c *core.Ctx) {
 			expects = append(expects, c12Reference([]*gtfsrt.EntitySelector{s1, s2}))
 		}
 		c.Feature("selector-pairs")
+	case c.Index < nS+nP+3*len(c12Sizes(c.Tier)):
+		kind = "sized-alert"
+		k := c.Index - nS - nP
+		n := c12Sizes(c.Tier)[k/3]
+		sels := c12SizedAlert(c.R, k%3, n, c.Index)
+		m.Entity = append(m.Entity, &gtfsrt.FeedEntity{Id: rgen.S(fmt.Sprintf("alert-%d", c.Index)), Alert: &gtfsrt.Alert{InformedEntity: sels}})
+		expects = append(expects, c12Reference(sels))
+		c.Feature(fmt.Sprintf("size-sweep:kind%d", k%3))
 	default:
 		na := 1 + c.R.Intn(3)
 		for k := 0; k < na; k++ {
@@ -399,7 +460,11 @@ func runC12(c *core.Ctx) {
 	}
 	for i, ex := range expects {
 		i := i
-		c.Shape(kind + ":" + ex.masks)
+		if kind == "sized-alert" {
+			c.Shape(fmt.Sprintf("sized-alert selectors=%d derived=%d", len(m.Entity[i].Alert.InformedEntity), ex.nFallback))
+		} else {
+			c.Shape(kind + ":" + ex.masks)
+		}
 		if ex.nFallback >= 2 {
 			c.Feature("two-or-more-derived-routes")
 		}
